@@ -264,6 +264,28 @@ def run_case(case, workdir):
             if not same:
                 rec.fail("schedule_dependent", {"normal": n, "m": m, "plan": explorer.plan_json(plan)},
                          "parallel slice under this task order differs from the serial slice")
+    # the command line entry point (array format) must save what the API returns
+    import os
+    import amr_kitchen.mandoline.cli as mcli
+    from ..common import run_cli
+    for m_ in (positions[len(positions) // 4], positions[len(positions) // 2]):
+        for limit, serial in ((None, False), (0, True)):
+            out = os.path.join(workdir, "cli_out")
+            argv = ["mandoline", path, "-f", "array", "-o", out, "-V", "0", "-n", str(n), "-p", repr(sm.pos_of(m_)), "-v", "G", "A", "grid_level"] \
+                + (["-L", str(limit)] if limit is not None else []) + (["-s"] if serial else [])
+            with vpool.controlled():
+                with poisoned(MODS, 0):
+                    st, val = run_cli(mcli.main, argv)
+            rec.exe([dh, "cli", m_, limit, serial])
+            if st != "ok":
+                rec.fail("cli_failed", {"argv": argv}, "%s %s" % (st, val))
+                continue
+            z = np.load(out + ".npz")
+            st2, api = do(["G", "A", "grid_level"], limit, serial, sm.pos_of(m_), 0)
+            if st2 == "ok" and not all(f in z.files and np.array_equal(np.asarray(z[f], dtype=float).view(np.uint64), np.asarray(api[f], dtype=float).view(np.uint64))
+                                       for f in ("G", "A", "grid_level", "x", "y")):
+                rec.fail("cli_differs_from_api", {"argv": argv}, "the saved arrays differ from Mandoline(...).slice(fformat='return')")
+            os.remove(out + ".npz")
     # default position = domain centre
     st, val = do(["G"], None, True, None, 0)
     rec.exe([dh, "default_pos"])
